@@ -497,9 +497,8 @@ def c04_7(ctx: Ctx) -> RuleResult:
     """Shared with C05.5: the value a realization is ranked by is the weighted sum of the chosen objectives."""
     from .c05 import c05_5
 
-    r = c05_5(ctx)
-    r.instances = [i for i in r.instances if "cvar" in i.construct.lower()]
+    r = c05_5(ctx)  # the objective flavours of both kernels (they may share their key computation)
     for i in r.instances:
         i.rule = "C04.7"
-    r.rule, r.title, r.floor = "C04.7", "cvar-objective ranks by values[..., sort] . objective_weights[sort] (weights always applied when several objectives are configured)", 2
+    r.rule, r.title, r.floor = "C04.7", "the objective flavours rank by values[..., sort] . objective_weights[sort] (weights always applied when several objectives are configured)", 2
     return r
